@@ -255,8 +255,8 @@ def r_ctor_state(c):
                         f"{short(qn)}(...) is given {f}=`{m.frag(kws[f], 50)}`, which is "
                         f"not evidently a constantdict: {short(qn)}.__post_init__ asserts "
                         "it, so the construction fails with AssertionError")
-    if n < 40:
-        raise AnalysisError(f"only {n} constructor-state obligations (floor 40)")
+    if n < 28:
+        raise AnalysisError(f"only {n} constructor-state obligations (floor 28)")
 
 
 ORDER_MODULES = [LC, "pytato.codegen", "pytato.transform.lower_to_index_lambda",
@@ -267,9 +267,9 @@ def r_order(c):
     m = c.model
     sites = scan(m, [x for x in ORDER_MODULES if x in m.modules],
                  external_order_types={"DictOfNamedArrays"})
-    if len(sites) < 10:
+    if len(sites) < 7:
         raise AnalysisError(f"only {len(sites)} unordered iteration sites in code "
-                            "generation modules (floor 10)")
+                            "generation modules (floor 7)")
     rv = Reviewed()
     for s in sites:
         where = m.loc(m.module_of(s.node), s.node)
@@ -365,7 +365,7 @@ def r_alignment(c):
 SPEC = Spec(
     prop="C01",
     rules=[r_dispatch, r_tables, r_ctor_state, r_order, r_alignment],
-    floors={"R01-DISPATCH": 30, "R01-TABLES": 20, "R01-CTOR-STATE": 45, "R01-ORDER": 12},
+    floors={"R01-DISPATCH": 28, "R01-TABLES": 18, "R01-CTOR-STATE": 36, "R01-ORDER": 12},
     explanation=(
         "Decides three structural clauses of C01, not the value clause. "
         "R01-DISPATCH: every kind of the supported fragment has a handler in "
